@@ -142,10 +142,14 @@ class TreeInfo(productmd.common.MetadataBase):
         :type main_variant: str
         """
         self.validate()
+        # Serialize into memory first: nested objects are validated while they
+        # are serialized, and a failure must not truncate the destination.
+        parser = self._get_parser()
+        self.serialize(parser, main_variant=main_variant)
+        output = six.StringIO()
+        self.build_file(parser, output)
         with productmd.common.open_file_obj(f, "w") as f:
-            parser = self._get_parser()
-            self.serialize(parser, main_variant=main_variant)
-            self.build_file(parser, f)
+            f.write(output.getvalue())
 
 
 class Header(productmd.common.Header):
